@@ -4,6 +4,7 @@ corrupt/<attr>/<operator>/<nlri> : a well-formed UPDATE (ORIGIN, AS_PATH, NEXT_H
     IPv4 NLRI or an MP_REACH ipv6 NLRI) with ONE corruption applied to ONE attribute:
       value   : correct length, every value byte symbolic (invalid values are found by the solver)
       short   : value one byte shorter than the shortest legal length        long : one byte longer
+      len16   : NEXT_HOP only: 16 value bytes (the length of an IPv6 address)
       empty   : zero length
       flags   : optional/transitive/partial bits symbolic
       overrun : declared length exceeds the attribute block by a symbolic amount (the bytes of the NLRI follow)
@@ -66,6 +67,8 @@ def build(ctx, target, op, nlri_mode):
             return None
     elif op == 'long':
         n = ln + 1
+    elif op == 'len16':
+        n = 16  # NEXT_HOP with the length of an IPv6 address: as wrong as any other length but 4 (RFC 4271 6.3, RFC 7606 7.3)
     elif op == 'empty':
         if ln == 0:
             return None
@@ -92,7 +95,7 @@ def build(ctx, target, op, nlri_mode):
             ctx.cover('partial-bit-set')
     # the length octets: one octet, or two with the EXTENDED_LENGTH bit (RFC 4271 4.3 allows it on any attribute) — the
     # length arithmetic of the parser differs between the two forms, so the corrupted attribute is tried in both
-    ext = bool(ctx.bool('t.ext')) if op in ('overrun', 'short', 'long') else False
+    ext = bool(ctx.bool('t.ext')) if op in ('overrun', 'short', 'long', 'len16') else False
     if ext:
         ctx.cover('extended-length-form')
 
@@ -286,6 +289,8 @@ def units(tier):
                     continue
                 us.append(Unit('corrupt/%s/%s/%s' % (t, op, nm), lambda ctx, t=t, op=op, nm=nm: h_corrupt(ctx, t, op, nm),
                                must_cover=('malformed',) if not (t in ('as4-aggregator',) and False) else (), hash_const=True, reset=C2.reset_state, weight=5, max_seconds=300))
+    us.append(Unit('corrupt/next-hop/len16/ip', lambda ctx: h_corrupt(ctx, 'next-hop', 'len16', 'ip'), must_cover=('malformed',), hash_const=True,
+                   reset=C2.reset_state, weight=5, max_seconds=300))
     # the same corruptions arriving a second time on a session which decoded a well-formed UPDATE first (state that outlives a message)
     for t in TARGETS:
         for op in OPERATORS:
